@@ -408,6 +408,16 @@ class MethodsMixin:
         if name == "sqrt":
             import math
             return F(math.sqrt(rv.v)) if rv.conc() and rv.v >= 0 else F(z3.fpSqrt(V.RM, rv.z()))
+        if name in ("fract", "trunc", "floor", "ceil", "round"):
+            import math
+            if rv.conc():
+                if math.isnan(rv.v) or math.isinf(rv.v):
+                    return F(float("nan")) if name == "fract" else rv
+                t = {"trunc": math.trunc, "floor": math.floor, "ceil": math.ceil, "round": lambda x: math.floor(abs(x) + 0.5) * (1 if x >= 0 else -1), "fract": math.trunc}[name](rv.v)
+                return F(rv.v - t) if name == "fract" else F(float(t))
+            rm = {"trunc": z3.RTZ(), "fract": z3.RTZ(), "floor": z3.RTN(), "ceil": z3.RTP(), "round": z3.RNA()}[name]
+            t = z3.fpRoundToIntegral(rm, rv.z())
+            return F(z3.fpSub(V.RM, rv.z(), t)) if name == "fract" else F(t)
         if name == "total_cmp":
             raise Unsupported("f64::total_cmp")
         raise Unsupported("f64::%s" % name)
@@ -566,6 +576,14 @@ class MethodsMixin:
                 except ValueError:
                     pass
                 return err(St("ParseIntError", {}))
+            if t in ("f64", "f32"):
+                import re
+                if re.match(r"^[+-]?((\d+\.?\d*([eE][+-]?\d+)?)|(\.\d+([eE][+-]?\d+)?)|inf|infinity|nan)$", s, re.I):
+                    try:
+                        return ok(F(float(s)))
+                    except ValueError:
+                        pass
+                return err(St("ParseFloatError", {}))
             raise Unsupported("str::parse::<%s>" % t)
         if name == "split_once":
             o = D()
